@@ -942,14 +942,14 @@ theorem typeMap_slots (t : Ty) (f : Fmt) (h : typeMap t = .ok f) (hb : t ≠ .tv
     simp only [Fmt.slots]
     have : n ≠ "bits" := fun hn => hb (by rw [hn])
     simp [this]
-  | coll e =>
-    cases e <;> simp [typeMap, nativeFmt] at h <;> subst h <;> decide
+  | coll k e =>
+    cases e <;> simp [typeMap, nativeFmt] at h <;> subst h <;> first | rfl | decide
   | bool => simp [typeMap, nativeFmt] at h; subst h; decide
   | int => simp [typeMap, nativeFmt] at h; subst h; decide
   | float => simp [typeMap, nativeFmt] at h; subst h; decide
   | bytes => simp [typeMap, nativeFmt] at h; subst h; decide
   | str => simp [typeMap, nativeFmt] at h; subst h; decide
-  | collSer c => simp [typeMap] at h; subst h; rfl
+  | lit c => simp [typeMap] at h; subst h; rfl
   | ser c => simp [typeMap] at h; subst h; rfl
   | other => simp [typeMap] at h
 
@@ -999,5 +999,79 @@ theorem mem_runInst (evs : List Nat) (k : Nat) : k ∈ runInst evs ↔ k ∈ evs
       · exact Or.inr (Or.inl h)
       · exact Or.inl h
       · exact Or.inr (Or.inr h)
+
+
+/-- under the guard `always` the state is just the list of instantiated classes -/
+theorem DChain.run_always (c : DChain V) (evs : List Nat) : c.run .always evs = runInst evs := by
+  unfold DChain.run runInst
+  suffices h : ∀ acc : List Nat, evs.foldl (c.newStep .always) acc = evs.foldl (fun conv k => k :: conv) acc from h []
+  induction evs with
+  | nil => intro acc; rfl
+  | cons e es ih => intro acc; simp only [List.foldl_cons, DChain.newStep]; exact ih _
+
+/-! ### re-compilation (form D runs vp_compile on every `__new__`) -/
+
+theorem alookup_filterMap_params (names : List String) (f : String → Option V) (p : String) (hp : p ∈ names) :
+    alookup ((names.map (fun n => (n, f n))).filterMap (fun q => match q.2 with
+      | some v => some (q.1, v)
+      | none => none)) p = f p := by
+  induction names with
+  | nil => simp at hp
+  | cons n ns ih =>
+    simp only [List.map_cons, List.filterMap_cons]
+    by_cases h : n = p
+    · subst h
+      cases hf : f n with
+      | none =>
+        simp only
+        -- p does not occur with a value later either way: lookup in the rest gives none or the same f p
+        by_cases hm : n ∈ ns
+        · rw [ih hm, hf]
+        · clear ih hp
+          induction ns with
+          | nil => rfl
+          | cons m ms ihm =>
+            simp only [List.mem_cons, not_or] at hm
+            simp only [List.map_cons, List.filterMap_cons]
+            cases f m with
+            | none => exact ihm hm.2
+            | some w => simp only [alookup, if_neg (Ne.symm hm.1)]; exact ihm hm.2
+      | some v => simp [alookup]
+    · have hp' : p ∈ ns := by
+        rcases List.mem_cons.mp hp with h1 | h1
+        · exact absurd h1.symm h
+        · exact h1
+      cases hf : f n with
+      | none => simp only; exact ih hp'
+      | some v => simp only [alookup, if_neg h]; exact ih hp'
+
+
+theorem alookup_filterMap_params_notin (names : List String) (f : String → Option V) (p : String) (hp : p ∉ names) :
+    alookup ((names.map (fun n => (n, f n))).filterMap (fun q => match q.2 with
+      | some v => some (q.1, v)
+      | none => none)) p = none := by
+  induction names with
+  | nil => rfl
+  | cons m ms ih =>
+    simp only [List.mem_cons, not_or] at hp
+    simp only [List.map_cons, List.filterMap_cons]
+    cases f m with
+    | none => exact ih hp.2
+    | some w => simp only [alookup, if_neg (Ne.symm hp.1)]; exact ih hp.2
+
+/-- the signature defaults that a second `vp_compile` reads are the first one's -/
+theorem recompile_sig (d : PDef V) (gu : GenUnpack) (gp : GenPack) :
+    (∀ p ∈ d.names, alookup (recompileDef d
+        { init := { params := d.names.map (fun n => (n, alookup d.sigDefaults n)),
+                    setters := d.names.map (fun n => (n, n)) }, unpack := gu, pack := gp }).sigDefaults p
+      = alookup d.sigDefaults p) ∧
+    (∀ p, p ∉ d.names → alookup (recompileDef d
+        { init := { params := d.names.map (fun n => (n, alookup d.sigDefaults n)),
+                    setters := d.names.map (fun n => (n, n)) }, unpack := gu, pack := gp }).sigDefaults p = none) := by
+  refine ⟨fun p hp => ?_, fun p hp => ?_⟩
+  · simp only [recompileDef, PDef.sigDefaults]
+    exact alookup_filterMap_params d.names (alookup d.sigDefaults) p hp
+  · simp only [recompileDef, PDef.sigDefaults]
+    exact alookup_filterMap_params_notin d.names (alookup d.sigDefaults) p hp
 
 end Ipv8.C20
